@@ -388,6 +388,11 @@ class C08(Check):
             if spec.get("pause") is None:
                 wn.options.time.duration = spec["duration"]
                 frames.append(sim.run_sim())
+                if spec.get("rerun"):
+                    # run / reset_initial_values / run again: the window is relative to the new run's clock, so a leak
+                    # still active at the end of the first run must be off again until its start_time
+                    wn.reset_initial_values()
+                    frames[:] = [wntr.sim.WNTRSimulator(wn).run_sim()]
             else:
                 wn.options.time.duration = spec["pause"]
                 frames.append(sim.run_sim())
@@ -480,7 +485,15 @@ class C08(Check):
                 area = rng.choice([1e-4, 0.001, 0.005]) if nm != "T" else rng.choice([0.002, 0.01])
                 leaks[nm] = (area, rng.choice([0.75, 0.6, 1.0]), st, en)
             spec = {"mode": rng.choice(["DD", "PDD"]), "hstep": hstep, "report": rng.choice(["ALL", hstep, hstep]), "duration": duration, "leaks": leaks}
-            if i % 4 == 1:
+            if i % 4 == 3:
+                # second run after reset_initial_values; at least one leak (incl. the tank's) is still on when run 1 ends
+                spec["rerun"] = True
+                for nm in list(leaks):
+                    a, c, st, en = leaks[nm]
+                    if st == 0:
+                        st = hstep // 2
+                    leaks[nm] = (a, c, st, None if nm in ("T", nodes[0]) else en)
+            elif i % 4 == 1:
                 # the leaking leaf junction JL is isolated while its leak is active
                 tiso = rng.choice([hstep, 2 * hstep, hstep + hstep // 2, 2 * hstep - 7])
                 spec["isolate"] = tiso
@@ -504,7 +517,7 @@ class C08(Check):
         failures, broken = [], []
         for fn, c in vlib.corpus_items(self.pid):
             if c.get("kind") == "sim":
-                failures += self._sim_case(ctx, wntr, {k: (tuple(v) if isinstance(v, list) and k != "remove" else v) for k, v in c.items() if k in ("mode", "hstep", "report", "duration", "leaks", "pause", "remove", "isolate")} | {"leaks": {n: tuple(v) for n, v in c["leaks"].items()}})
+                failures += self._sim_case(ctx, wntr, {k: (tuple(v) if isinstance(v, list) and k != "remove" else v) for k, v in c.items() if k in ("mode", "hstep", "report", "duration", "leaks", "pause", "remove", "isolate", "rerun")} | {"leaks": {n: tuple(v) for n, v in c["leaks"].items()}})
         f, b = self._leak_rows(ctx, wntr, 12 if ctx.quick else 120)
         failures += f
         broken += b
@@ -518,7 +531,7 @@ class C08(Check):
             fs = self._sim_case(ctx, wntr, spec)
             failures += fs
             if len(ctx.samples) < 4:
-                ctx.sample({k: spec[k] for k in ("mode", "hstep", "report", "duration", "leaks", "isolate") if k in spec} | {"pause": spec.get("pause"), "failures": len(fs)})
+                ctx.sample({k: spec[k] for k in ("mode", "hstep", "report", "duration", "leaks", "isolate", "rerun") if k in spec} | {"pause": spec.get("pause"), "failures": len(fs)})
         failures.sort(key=lambda x: len(json.dumps(x.replay, default=str)))
         return failures, broken
 
